@@ -184,6 +184,17 @@ fn mk(cfg: &RunCfg) -> Box<dyn Oracle> {
 /// removal does not reach it) and is invited again; it accepts while its record of the group is
 /// still active. The joined state is new: the rotation obligation is back.
 fn story_hook(gn: &mut Gen, w: &mut World) -> Option<Step> {
+    // a stale list entry: an invitation that was accepted long ago is declined, then accepted again
+    if gn.rng().chance(1, 10) {
+        let accepted: Vec<(usize, EvRef)> = w.history.iter().filter(|r| r.class == "ok").filter_map(|r| match &r.step.op { Op::AcceptWelcome { w: wr } => Some((r.step.node, *wr)), _ => None }).collect();
+        if let Some((x, wr)) = gn.rng().pick(&accepted).copied() {
+            let first = gn.mk(w, x, 0, Op::DeclineWelcome { w: wr });
+            let st = gn.mk(w, x, 0, Op::AcceptWelcome { w: wr });
+            gn.queue.push_back(st);
+            w.probe("accepted_invitation_declined_then_accepted_story");
+            return Some(first);
+        }
+    }
     // key-package hygiene after a join: the private parts of the key packages published so far are
     // deleted (invitations already stored must keep being answered from storage)
     if gn.rng().chance(1, 10) {
